@@ -98,6 +98,7 @@ def ops (c : Cfg) : Ops St where
   again s := s.again
   setDirectResponse s b := { s with direct := b }
   clearRetryState s := s
+  releaseRetry s := s
   setAgain s p := { s with again := p }
   setSetupRetry s _ := s
   onUpstreamReset s := onUpstreamReset c.env.resetCode s
